@@ -124,9 +124,20 @@ fn check_coset(c: &CosetCase, obs: &mut Obs) -> Result<(), String> {
         }
         ensure!(c.order % count == 0, "harness: |H| = {} does not divide |G| = {}", count, c.order);
         (c.order / count, count)
-    } else {
-        ensure!(c.index > 0, "harness: neither order nor index known");
+    } else if c.index > 0 {
         (c.index, 0)
+    } else {
+        // no independent knowledge (random presentation): the reference Todd-Coxeter table is the
+        // expectation. Of two VALID tables (complete, relators close everywhere, H fixes row 0) the
+        // larger one is the coset table, so a smaller valid crate table is a certain violation and a
+        // larger one would be an error of the harness's own enumeration.
+        match todd_coxeter(c.nr_gens, &c.rels, &sub, 3_000) {
+            Some(t) => (t.len() as u64, 0),
+            None => {
+                obs.discard("index infinite or beyond 3000 (reference enumeration gave up)");
+                return Ok(());
+            }
+        }
     };
     // the routine under test
     let rels: Vec<FreeWord> = presented_relators(c).iter().map(|w| fw(w)).collect();
@@ -140,6 +151,9 @@ fn check_coset(c: &CosetCase, obs: &mut Obs) -> Result<(), String> {
     for w in &sub {
         let e = t.trace(0, w);
         ensure!(e == 0, "subgroup generator {:?} traced from row 0 ends in row {} (rows: {})", w, e, t.len());
+    }
+    if c.order == 0 && c.index == 0 && t.len() as u64 > expected {
+        return Err(format!("harness: the crate's valid table has {} rows but the reference enumeration only {}", t.len(), expected));
     }
     ensure!(t.len() as u64 == expected, "table has {} rows, [G:H] = {}", t.len(), expected);
     // coset representatives
@@ -194,7 +208,8 @@ fn check_coset(c: &CosetCase, obs: &mut Obs) -> Result<(), String> {
     obs.classify(!normal, "non-normal subgroup");
     obs.classify(expected == 1, "H = G");
     obs.classify(sub.is_empty(), "trivial subgroup");
-    obs.classify(c.order == 0, "infinite group, finite index");
+    obs.classify(c.order == 0 && c.index > 0, "infinite group, finite index");
+    obs.classify(c.order == 0 && c.index == 0, "random presentation, index from the reference enumeration");
     obs.classify(c.variant != 0, "relators rotated / inverted / duplicated");
     Ok(())
 }
@@ -301,6 +316,44 @@ pub fn run(ctx: &mut Ctx) {
         },
         t.pick(40_000, 400_000),
     );
+    // random presentations, random subgroup words (no literature value: reference enumeration + maximality argument)
+    ctx.layer("random-presentations");
+    ctx.run_prop(
+        &SUB_COSET,
+        || {
+            (random_presentation(3), prop::collection::vec(prop::collection::vec((1i64..=3, any::<bool>()), 1..=7), 0..=3), 0u8..3).prop_filter_map("non-empty relator list", |((n, rels), ws, variant)| {
+                if rels.is_empty() {
+                    return None;
+                }
+                let sub = ws.into_iter().map(|w| w.into_iter().map(|(l, neg)| { let l = (l - 1) % n as i64 + 1; if neg { -l } else { l } }).collect()).collect();
+                Some(CosetCase { name: format!("random presentation on {} generators", n), nr_gens: n, rels, order: 0, index: 0, sub, variant })
+            })
+        },
+        t.pick(20_000, 300_000),
+    );
+}
+
+/// random presentation: relators are random reduced words or proper powers of short words
+pub fn random_presentation(max_gens: usize) -> impl Strategy<Value = (usize, Vec<Word>)> {
+    (1usize..=max_gens, any::<bool>()).prop_flat_map(|(n, torsion)| {
+        let letter = move || (1..=n as i64, any::<bool>()).prop_map(|(l, s)| if s { -l } else { l });
+        let rel = prop_oneof![
+            2 => prop::collection::vec(letter(), 1..=6),
+            3 => (prop::collection::vec(letter(), 1..=3), 2usize..=6).prop_map(|(w, e)| { let mut v = vec![]; for _ in 0..e { v.extend(w.iter()); } v }),
+        ];
+        // with `torsion` every generator gets a power relator first, which makes finite groups
+        // (and finite-index subgroups) much more frequent
+        (prop::collection::vec(rel, 1..=4), prop::collection::vec(2usize..=5, n)).prop_map(move |(rels, exps)| {
+            let mut all: Vec<Word> = vec![];
+            if torsion {
+                for (g, &e) in exps.iter().enumerate() {
+                    all.push(vec![g as i64 + 1; e]);
+                }
+            }
+            all.extend(rels.into_iter().map(|w| free_reduce(&w)).filter(|w| !w.is_empty()));
+            (n, all)
+        })
+    })
 }
 
 pub fn replay(ctx: &mut Ctx, sub: &str, case: &Value) -> Option<Result<(), String>> {
